@@ -510,6 +510,20 @@ def guard_of(prog, body, bb):
 
 def discharge(prog, S, body, ref, effs):
     rb, ri, rname, rv = ref
+    r_ = _discharge_d1(prog, body, rb)
+    if r_ is None:
+        # the dominating test may sit in a private checker (`self.state.ensure_opened()?`): spliced in (block numbers of the function are kept), and the
+        # "first test did not take this arm" part decided with the variants of the checker's Result followed
+        from ..inline import inlined_body
+        ib = inlined_body(prog, body, depth=1)
+        if getattr(ib, 'inlined', 0):
+            r_ = _discharge_d1(prog, ib, rb, variant_paths=True)
+    if r_ is not None:
+        return r_
+    return _discharge_d2(prog, S, body, ref, effs)
+
+
+def _discharge_d1(prog, body, rb, variant_paths=False):
     # D1: the refusal sits on an arm that contradicts a dominating test of the same place, with no intervening write of that place
     for sbb, si in arm_of_enum_switch(prog, body):
         for arm in list(si['arms']) + si.get('rest', []):
@@ -526,7 +540,9 @@ def discharge(prog, S, body, ref, effs):
                     continue
                 # the second test is reached only when the first did not take `arm`
                 if not any(body.edge_dominates((sbb1, o), sbb) for o in others if o is not None):
-                    continue
+                    # (path form: taking `arm` at the first test never leads to the second one -- Err(..) -> `?` -> return, variants followed)
+                    if not (variant_paths and sbb not in reachable_vs(body, t1)):
+                        continue
                 # no write to the tested place in between
                 between = body.reachable(sbb1) & {b for b in range(len(body.blocks)) if sbb in body.reachable(b)}
                 dirty = False
@@ -543,6 +559,11 @@ def discharge(prog, S, body, ref, effs):
                                     dirty = True
                 if not dirty:
                     return 'arm %s of the test on %s contradicts the dominating test at %s (no write in between)' % (arm, place_str(body, si['place']), body.loc(sbb1))
+    return None
+
+
+def _discharge_d2(prog, S, body, ref, effs):
+    rb, ri, rname, rv = ref
     # D2: the same refusal variant was already tested negative, on the same named constant, before any effect
     variants = set(rv.split('+')) if rv else set()
     if rname.startswith('refusing-call') and len(variants) == 1:
